@@ -492,6 +492,11 @@ def run(rep: Report, tier: str) -> None:
                       "that ran before a failure do not outlive the run")
     from sa.checks.c16 import session_resources as _session_resources
     _session_resources(P, rep, "R13.9")
+    # ---- R13.10: the table of a DataFrame input exists before any statement is run (shared with C19 / C05 R05.11) ----
+    rep.rule("R13.10", "register_dataframes creates the table of every dataset given as a DataFrame on every path of its loop (only `name not in input_datasets` skips): the "
+                       "load step of the schedule finds the table of an empty DataFrame too, so its first reader does not run before the table exists")
+    from sa.checks.c19 import every_dataframe_becomes_a_table as _edt
+    _edt(P, rep, "R13.10")
     rep.assumptions = ["normal-flow paths only for ordering (an exception aborts the run; its cleanup is C16)",
                        "the DAG's dependencies dict is filled in increasing statement number (single writer checked under R13.2)"]
 
